@@ -1,6 +1,6 @@
 #!/bin/sh
 # tools/seed_sweep.sh <seed> [tier] : run all claimed checks with VERIF_SEED=<seed>, 6 in parallel, print non-OK lines
 S=$1; T=${2:-quick}
-cd /verif
+cd "$(dirname "$0")/.."
 ids=$(python3 -c "import json;print(' '.join(c['property_id'] for c in json.load(open('MANIFEST.json'))['checks']))")
 echo $ids | tr ' ' '\n' | xargs -P 6 -I{} sh -c "VERIF_SEED=$S VERIF_OUT_DIR=/var/tmp/sweep-$S ./check {} --tier $T > /var/tmp/sweep-$S-{}.log 2>&1; echo {} rc=\$? \$(grep -E '^OK|^VIOLATION' /var/tmp/sweep-$S-{}.log | cut -c1-120)"
